@@ -11,14 +11,14 @@ CTs == {"application/proto", "application/json", "application/verifc", "applicat
         "application/connect", "application/connect+", "application/grpc+", "application/grpc-web+",
         "application/grpc+proto ", "Application/Grpc", "application/grpc-web-text", "application/x-protobuf",
         "application/connect+proto, application/json"}
-GrpcTimeouts == { <<>>, <<"5", "S">>, <<"3", "0", "0", "0", "0", "0", "m">>, <<"7", "0", "0", "0", "0", "0", "0", "u">>,
+GrpcTimeouts == { <<>>, <<"0", "S">>, <<"0", "0", "0", "n">>, <<"1", "n">>, <<"5", "S">>, <<"3", "0", "0", "0", "0", "0", "m">>, <<"7", "0", "0", "0", "0", "0", "0", "u">>,
                   <<"2", "0", "M">>, <<"1", "H">>, <<"9", "9", "9", "9", "9", "9", "9", "9", "H">>,
                   <<"8", "0", "0", "0", "0", "0", "0", "0", "n">>,
                   \* malformed
                   <<"5">>, <<"5", "X">>, <<"S">>, <<"a", "b", "c", "S">>, <<"+", "5", "S">>, <<"-", "5", "S">>,
                   <<"5", ".", "5", "S">>, <<" ", "5", "S">>, <<"5", " ", "S">>, <<"5", "s">>,
                   <<"1", "2", "3", "4", "5", "6", "7", "8", "9", "S">>, <<"5", "S", "S">> }
-ConnectTimeouts == { <<>>, <<"5", "0", "0", "0">>, <<"3", "0", "0", "0", "0", "0">>,
+ConnectTimeouts == { <<>>, <<"0">>, <<"0", "0", "0", "0", "0", "0", "0", "0", "0", "0">>, <<"1">>, <<"5", "0", "0", "0">>, <<"3", "0", "0", "0", "0", "0">>,
                      <<"9", "9", "9", "9", "9", "9", "9", "9", "9", "9">>,
                      <<"a", "b", "c">>, <<"+", "5", "0", "0", "0">>, <<"-", "5", "0", "0", "0">>,
                      <<"5", "0", "0", "0", "m", "s">>, <<"5", ".", "5">>, <<" ", "5", "0", "0", "0">>,
